@@ -17,6 +17,11 @@ Step(e) ==
     \/ e.op = "take_none"    /\ TakeNone
     \/ e.op = "shuffle"      /\ Shuffle
     \/ e.op = "exec_end"     /\ Finish(e.id)
+    \/ e.op = "exec_panic"   /\ Abort(e.id)
+    \/ e.op = "task_attrs"   /\ TaskAttrs(e.prio, e.stealable, e.dur_ms, e.got_prio, e.got_stealable, e.got_dur_ms)
+    \/ e.op = "bulk"         /\ Bulk(e.n, e.accepted, e.execs, e.queued, e.idle, e.executed)
+    \/ e.op = "init"         /\ InitOk(e.max_fibers, e.queue_size, e.ok)
+    \/ e.op = "global"       /\ GlobalIs(e.initialised, e.present)
     \/ e.op = "queued"       /\ QueuedIs(e.n)
     \/ e.op = "final"        /\ Final(e.queued, e.idle, e.executed, e.pending)
     \/ e.op = "note"         /\ UNCHANGED where
